@@ -119,6 +119,8 @@ def oracle(ctx, script, real, gen_index):
                     continue
                 s_sim, d_sim = last[src]["sim"], last[j]["sim"]
                 ver = last[j]["ver"]
+                if (dg[0] >> 4) >= 1 and len(dg) > 8 and (dg[8] & 0x80):
+                    continue          # an idle indication (suppressed burst): who gets one and what it holds is C02 / C18
                 bits = sent[6:]
                 bits = bits[:444] if len(bits) >= 444 else bits[:148]
                 fail = []
@@ -204,6 +206,14 @@ def run(ctx):
     for s, r in zip(scripts, reals):
         oracle(ctx, s, r, gen_index)
         W.refused_leaves_no_trace(ctx, s, r, "c10")
+    # fan-out: one sender, several recipients (some dropping / muted, mixed header versions): every recipient that is served gets ITS
+    # OWN faithful copy with ITS OWN simulated metadata (generator and routing oracle shared with C02)
+    from . import C02 as _C02
+    fan = [_C02.fanout_script(rng) for _ in range(40 if ctx.tier == "quick" else 1200)]
+    freals = SC.run_scripts(ctx, "fanout-session", fan)
+    for s, r in zip(fan, freals):
+        oracle(ctx, s, r, gen_index)
+        _C02.oracle(ctx, s, r)
     ctx.sample([SC.describe(o) for o in scripts[0][1][:12]])
     ctx.extra["rule"] = ("BTS+MS sessions: SETTA / SETPOWER / FAKE_TOA / FAKE_RSSI / FAKE_CI (bases, thresholds, relative forms) on either side, both header versions, bursts from the real RandBurstGen "
                          "(every training sequence x NB/SB/AB, FB, dummy), random 148/444-bit bursts and adversarial bursts embedding a second sequence, attenuation octets, legacy-padded input; "
